@@ -377,11 +377,11 @@ theorem Store.remove_noDup (k : Kind) (now : Int) (sid : Bytes) (st : Store) (hd
 /-! ## Layer 2: tokens (cookie values) and their payloads -/
 
 /-- hypotheses on the externals (never axioms): identifiers have the issued form, decryption inverts
-encryption, reading a number inverts writing it -/
+encryption.  (The model and the specification use the same `showInt`/`readInt`, so no law about them is
+needed for the refinement.) -/
 structure EnvOK (env : Env) : Prop where
   sid_form : ∀ n, Spec.wellFormedId (env.sidOf n) = true
   dec_enc : ∀ t d, env.dec (env.enc t d) = some (t, d)
-  read_show : ∀ n, env.readInt (env.showInt n) = some n
 
 def sidPayload (recs : List Rec) (c : Bytes) : Option (Int × Bytes) :=
   match validSid c with
